@@ -183,7 +183,7 @@ impl Prop for C19 {
             cli::age_file(&f);
             let before = cli::stat(&f);
             let mut a = cli_args.clone();
-            let how = if decoy { rng.below(5) } else { rng.below(12) };
+            let how = if decoy { rng.below(5) } else { rng.below(14) };
             match how {
                 0 => a.extend(["-C".into(), "no_such_option=1".into()]),
                 1 => a.extend(["-C".into(), "wrap_column=abc".into()]),
@@ -216,6 +216,25 @@ impl Prop for C19 {
                     std::fs::write(cwd.join("pasfmt.toml"), bytes).unwrap();
                     if explicit.is_some() {
                         a.extend(["-C".into(), "line_ending=cr".into()]);
+                    }
+                }
+                12 | 13 => {
+                    // a negative number for an unsigned setting, as a bare TOML integer in the nearest file
+                    // or in the file named explicitly
+                    let key = *rng.pick(&["tab_width", "wrap_column", "continuation_indents"]);
+                    let body = format!("{key} = -{}\n", rng.range(1, 9));
+                    if how == 12 && !overrides.iter().any(|(o, _)| *o == key) {
+                        std::fs::write(cwd.join("pasfmt.toml"), body).unwrap();
+                        if explicit.is_some() {
+                            a.extend(["-C".into(), "line_ending=cr".into()]);
+                        }
+                    } else {
+                        let p = cwd.join("negative.toml");
+                        std::fs::write(&p, body).unwrap();
+                        if overrides.iter().any(|(o, _)| *o == key) {
+                            a.extend(["-C".into(), "line_ending=cr".into()]);
+                        }
+                        a.extend(["--config-file".into(), p.to_string_lossy().to_string()]);
                     }
                 }
                 11 => {
